@@ -1,5 +1,5 @@
 //! C11 (P16E1 / P8E0 elementary functions, correctly rounded) and C15 (P32E2, ULP bounds).
-use crate::drive::Ctx;
+use crate::drive::{peek, Ctx};
 use crate::fixed::{P16T, P32T, P8T};
 use crate::gen;
 use rand::Rng;
@@ -159,5 +159,120 @@ pub fn suite_c15(ctx: &mut Ctx) {
             let b = pick(ctx);
             ctx.call(ty, f, "m", &[a, b]);
         }
+    }
+    screen_c15(ctx);
+}
+
+/// f64 value of the function, used only to *rank* candidate inputs (never to judge a result)
+fn f64_ref(op: &str, a: f64, b: f64) -> f64 {
+    match op {
+        "sin" => a.sin(),
+        "cos" => a.cos(),
+        "tan" => a.tan(),
+        "asin" => a.asin(),
+        "acos" => a.acos(),
+        "atan" => a.atan(),
+        "ln" => a.ln(),
+        "log2" => a.log2(),
+        "exp" => a.exp(),
+        "exp2" => a.exp2(),
+        "sinh" => a.sinh(),
+        "cosh" => a.cosh(),
+        "cbrt" => a.cbrt(),
+        "hypot" => a.hypot(b),
+        "powf" => a.powf(b),
+        "atan2" => a.atan2(b),
+        _ => f64::NAN,
+    }
+}
+
+/// Screening: many more inputs than TLC could judge are run through the implementation, ranked by their distance (in
+/// patterns) from the f64 value of the function, and the worst of each function are logged for the specification to
+/// judge.  The ranking decides nothing; it only aims the judged sample at the inputs most likely to exceed the bound.
+fn screen_c15(ctx: &mut Ctx) {
+    let ty = &P32T;
+    let n = ctx.q(60_000, 3_000_000);
+    let keep = ctx.q(150, 1500);
+    let p = |v: u64| f64::from(softposit::P32E2::from_bits(v as u32));
+    for f in F32U.iter().take(13).copied().chain(["hypot", "powf", "atan2"]) {
+        let two = matches!(f, "hypot" | "powf" | "atan2");
+        let mut worst: Vec<(i64, u64, u64)> = Vec::new();
+        for i in 0..n {
+            let (lo, hi) = match f {
+                "sin" | "cos" | "tan" => (-30, 19),
+                "exp" | "sinh" | "cosh" => (-30, 7),
+                "exp2" => (-30, 7),
+                "asin" | "acos" => (-30, 0),
+                "powf" => (-3, 4),
+                _ => (-60, 60),
+            };
+            let mut pick = |ctx: &mut Ctx, signed: bool| {
+                // half of the sample: every binade of the range equally likely; half: a few binades around 1
+                let s = if i % 2 == 0 { ctx.rng.gen_range(lo..hi) } else { ctx.rng.gen_range(lo.max(-3)..hi.min(4)) };
+                let v = gen::from_scale(32, 2, s, ctx.rng.gen::<u64>());
+                if signed && ctx.rng.gen::<bool>() { gen::neg(32, v) } else { v }
+            };
+            let a = pick(ctx, !matches!(f, "ln" | "log2" | "powf"));
+            let b = if two { pick(ctx, true) } else { 0 };
+            let want = f64_ref(f, p(a), p(b));
+            if !want.is_finite() {
+                continue;
+            }
+            let got = match if two { peek(ty, f, &[a, b]) } else { peek(ty, f, &[a]) } {
+                Some(r) if r != 0x8000_0000 => r,
+                _ => continue,
+            };
+            let w = softposit::P32E2::from_f64(want).to_bits();
+            let d = ((got as u32 as i32) as i64 - (w as i32) as i64).abs();
+            ctx.sink.screened += 1;
+            if d >= 1 {
+                worst.push((d, a, b));
+                if worst.len() > 4 * keep {
+                    worst.sort_by(|x, y| y.0.cmp(&x.0));
+                    worst.truncate(keep);
+                }
+            }
+        }
+        worst.sort_by(|x, y| y.0.cmp(&x.0));
+        worst.truncate(keep);
+        for &(_, a, b) in &worst {
+            if two {
+                ctx.call(ty, f, "m", &[a, b]);
+            } else {
+                ctx.call(ty, f, "m", &[a]);
+            }
+        }
+    }
+}
+
+/// tuning aid (not a check): histogram of pattern distances from the f64 value for one P32E2 function
+pub fn screen_hist(op: &str, n: usize, lo: i32, hi: i32, seed: u64) {
+    use rand::SeedableRng;
+    let mut rng = rand::rngs::StdRng::seed_from_u64(seed);
+    let ty = &P32T;
+    let two = matches!(op, "hypot" | "powf" | "atan2");
+    let p = |v: u64| f64::from(softposit::P32E2::from_bits(v as u32));
+    let mut hist = std::collections::BTreeMap::<i64, (u64, u64, u64)>::new();
+    for _ in 0..n {
+        let a = gen::from_scale(32, 2, rng.gen_range(lo..hi), rng.gen::<u64>());
+        let mut b = if two { gen::from_scale(32, 2, rng.gen_range(lo..hi), rng.gen::<u64>()) } else { 0 };
+        if two && rng.gen::<bool>() {
+            b = gen::neg(32, b);
+        }
+        let want = f64_ref(op, p(a), p(b));
+        if !want.is_finite() {
+            continue;
+        }
+        let got = match if two { peek(ty, op, &[a, b]) } else { peek(ty, op, &[a]) } {
+            Some(r) if r != 0x8000_0000 => r,
+            _ => continue,
+        };
+        let w = softposit::P32E2::from_f64(want).to_bits();
+        let d = ((got as u32 as i32) as i64 - (w as i32) as i64).abs();
+        let e = hist.entry(d.min(1000)).or_insert((0, a, b));
+        e.0 += 1;
+    }
+    for (d, (c, a, b)) in hist {
+        println!("d={d} count={c} e.g. a={a:#x} b={b:#x}");
     }
 }
